@@ -58,6 +58,12 @@ def worker(mod_json, wseed, nvalues, cfg_kw, spec_name, flags=drv.DEFAULT_FLAGS,
                 try:
                     res = spec.run_case(sess, mod, tname, t, x, feats, acc)
                 except drv.DriverCrash as e:
+                    if e.why.startswith("hang") and not getattr(spec, "HANG_IS_VERDICT", False):
+                        # termination belongs to C04/C07; elsewhere a reply timeout is a cost problem of the harness
+                        # (large values under the sanitizers), counted and never a verdict
+                        acc.extra["reply_timeouts(inconclusive)"] += 1
+                        acc.notes.append("reply timeout on %s ::= %s (inconclusive)" % (tname, ttext[:200]))
+                        return
                     replay = spec.make_replay(mod, tname, t, x)
                     f = Fail(h(ttext, "hang" if e.why.startswith("hang") else "crash"),
                              "driver crashed/hung on %s ::= %s\ncase %s\n%s" % (
